@@ -9,6 +9,7 @@
 //!   O ...          what the implementation did / returned (canonicalised)
 //!   V <prop> ...   the direct oracle saw the *property* fail on the real code
 //!   # ...          statistics
+mod fam_iovec;
 mod fam_readn;
 mod util;
 
@@ -17,7 +18,10 @@ use std::panic::{catch_unwind, AssertUnwindSafe};
 use util::{Exec, Family, Rng, StepOut};
 
 fn families() -> Vec<Box<dyn Family>> {
-    vec![Box::new(fam_readn::ReadNFamily)]
+    vec![
+        Box::new(fam_readn::ReadNFamily),
+        Box::new(fam_iovec::IovecFamily),
+    ]
 }
 
 struct Stats {
@@ -49,6 +53,10 @@ fn run_case(
             Err(_) => {
                 writeln!(out, "O panic").unwrap();
                 stats.panics += 1;
+                if let Ok(Some(v)) = catch_unwind(AssertUnwindSafe(|| exec.panic_violation(&words))) {
+                    writeln!(out, "V {}", v).unwrap();
+                    stats.violations += 1;
+                }
                 dead = true;
                 break;
             }
